@@ -394,11 +394,12 @@ theorem setitem_block_raises (C : Carrier α) {i0 i1 : Idx} (h0 : i0.isNull = fa
   simp [setitem, h0, h1]
 
 /-- `A[rows, :] = 0` / `A[:, cols] = 0` : exactly the selected rows (columns) of the dense matrix become zero, in place
-    on the stored vectors; shape and dtype unchanged -/
+    on the stored vectors; `A[:, :] = 0` drops all dyads (repair 9b72248); shape and dtype unchanged -/
 theorem setitem_refines {C D : Carrier α} {i0 i1 : Idx} (w : WF C) (h : setitem C i0 i1 true = .ok D) :
     (i0.isNull = true ∨ i1.isNull = true)
       ∧ (∀ i j, dense D i j =
-          if zeroedSel C.ulen.toNat i0 i || zeroedSel C.vlen.toNat i1 j then 0 else dense C i j)
+          if (i0.isNull && i1.isNull) || zeroedSel C.ulen.toNat i0 i || zeroedSel C.vlen.toNat i1 j then 0
+          else dense C i j)
       ∧ D.ulen = C.ulen ∧ D.vlen = C.vlen ∧ D.c = C.c ∧ WF D := by
   unfold setitem at h
   simp only [Bool.not_true, Bool.false_eq_true, if_false] at h
@@ -408,6 +409,13 @@ theorem setitem_refines {C D : Carrier α} {i0 i1 : Idx} (w : WF C) (h : setitem
   have hnull : i0.isNull = true ∨ i1.isNull = true := by
     cases h0 : i0.isNull <;> cases h1 : i1.isNull <;> simp [h0, h1] at hb ⊢
   refine ⟨hnull, ?_⟩
+  by_cases hboth : (i0.isNull && i1.isNull) = true
+  · rw [if_pos hboth] at h
+    simp only [Except.ok.injEq] at h
+    subst h
+    exact ⟨fun i j => by simp [hboth, dense], rfl, rfl, rfl, ⟨rfl, by simp, by simp⟩⟩
+  rw [if_neg hboth] at h
+  have hbf : (i0.isNull && i1.isNull) = false := by simpa using hboth
   by_cases he : (C.u.isEmpty || C.v.isEmpty) = true
   · rw [if_pos he] at h
     simp only [Except.ok.injEq] at h
@@ -426,51 +434,56 @@ theorem setitem_refines {C D : Carrier α} {i0 i1 : Idx} (w : WF C) (h : setitem
   refine ⟨fun i j => ?_, rfl, rfl, rfl, ?_⟩
   · simp only [dense]
     rw [dsum_zeroAt_left, dsum_zeroAt_right]
-    simp only [zeroedSel, hu', hv']
+    simp only [zeroedSel, hu', hv', hbf]
     cases pu.contains i <;> cases pv.contains j <;> simp
   · exact wf_map_zeroAt_v (C := { C with u := C.u.map (fun x => x.zeroAt pu) }) (wf_map_zeroAt_u w pu) pv
 
 
-/-- the same in numpy's terms: with exactly one full slice, `A[i0, i1] = 0` zeroes exactly the entries selected by
-    BOTH subscripts (`inSel`, `:` selecting everything) -/
-theorem setitem_dense_semantics {C D : Carrier α} {i0 i1 : Idx} (w : WF C) (hx : (i0.isNull != i1.isNull) = true)
+/-- the same in numpy's terms, for EVERY accepted subscript pair (one or both full slices): `A[i0, i1] = 0` zeroes
+    exactly the entries selected by BOTH subscripts (`inSel`, `:` selecting everything) -/
+theorem setitem_dense_semantics {C D : Carrier α} {i0 i1 : Idx} (w : WF C)
     (h : setitem C i0 i1 true = .ok D) :
     ∀ i j, dense D i j = if inSel C.ulen.toNat i0 i && inSel C.vlen.toNat i1 j then 0 else dense C i j := by
-  obtain ⟨_, d, _⟩ := setitem_refines w h
+  obtain ⟨hnull, d, _⟩ := setitem_refines w h
   intro i j
   rw [d]
-  -- which of the two is the full slice
+  have zn : ∀ n k, zeroedSel n (.sl none none none) k = false := fun n k => by simp [zeroedSel, zeroSel, Idx.isNull]
+  have zs : ∀ n (ix : Idx) k, ix.isNull = false → zeroedSel n ix k = inSel n ix k := fun n ix k hn => by
+    simp only [zeroedSel, zeroSel, hn, Bool.false_eq_true, if_false, inSel]
+    cases applyIdx n ix with
+    | ok p => rfl
+    | error e => rfl
   cases h0 : i0.isNull with
   | true =>
-    have h1 : i1.isNull = false := by cases hh : i1.isNull <;> simp [h0, hh] at hx ⊢
     have e0 := (isNull_iff i0).mp h0
     subst e0
-    have z0 : ∀ n, zeroedSel n (.sl none none none) i = false := fun n => by simp [zeroedSel, zeroSel, Idx.isNull]
-    have z1 : zeroedSel C.vlen.toNat i1 j = inSel C.vlen.toNat i1 j := by
-      simp only [zeroedSel, zeroSel, h1, Bool.false_eq_true, if_false, inSel]
-      cases applyIdx C.vlen.toNat i1 with
-      | ok p => rfl
-      | error e => rfl
-    rw [z0, z1, inSel_null]
-    by_cases hi : i < C.ulen.toNat
-    · simp [hi]
-    · have : dense C i j = 0 := dense_outside w (Or.inl (by omega))
-      simp [hi, this]
+    cases h1 : i1.isNull with
+    | true =>
+      have e1 := (isNull_iff i1).mp h1
+      subst e1
+      rw [inSel_null, inSel_null]
+      by_cases hi : i < C.ulen.toNat
+      · by_cases hj : j < C.vlen.toNat
+        · simp [hi, hj, Idx.isNull]
+        · have : dense C i j = 0 := dense_outside w (Or.inr (by omega))
+          simp [hj, this, Idx.isNull]
+      · have : dense C i j = 0 := dense_outside w (Or.inl (by omega))
+        simp [hi, this, Idx.isNull]
+    | false =>
+      rw [zn, zs _ _ _ h1, inSel_null]
+      by_cases hi : i < C.ulen.toNat
+      · simp [hi, h1, Idx.isNull]
+      · have : dense C i j = 0 := dense_outside w (Or.inl (by omega))
+        simp [hi, this, h1, Idx.isNull]
   | false =>
-    have h1 : i1.isNull = true := by cases hh : i1.isNull <;> simp [h0, hh] at hx ⊢
+    have h1 : i1.isNull = true := by rcases hnull with c | c; simp [h0] at c; exact c
     have e1 := (isNull_iff i1).mp h1
     subst e1
-    have z1 : ∀ n, zeroedSel n (.sl none none none) j = false := fun n => by simp [zeroedSel, zeroSel, Idx.isNull]
-    have z0 : zeroedSel C.ulen.toNat i0 i = inSel C.ulen.toNat i0 i := by
-      simp only [zeroedSel, zeroSel, h0, Bool.false_eq_true, if_false, inSel]
-      cases applyIdx C.ulen.toNat i0 with
-      | ok p => rfl
-      | error e => rfl
-    rw [z0, z1, inSel_null]
+    rw [zn, zs _ _ _ h0, inSel_null]
     by_cases hj : j < C.vlen.toNat
-    · simp [hj]
+    · simp [hj, h0]
     · have : dense C i j = 0 := dense_outside w (Or.inr (by omega))
-      simp [hj, this]
+      simp [hj, this, h0]
 
 /-! ## `contract` : against the explicit sum `Σ_p Σ_q A[rows p, cols q] · B[p, q]` (`cspec`, `Lemmas/DyadContract.lean`)
 
@@ -834,7 +847,7 @@ theorem step_refines {env : Env α} (i : Instr α) (wf : ∀ C ∈ env, WF C) (a
         | error e => simp [hs, Out.isOk] at hok
         | ok D =>
           obtain ⟨_, _, s1, s2, _, wd⟩ := setitem_refines wC hs
-          have d := setitem_dense_semantics wC adm hs
+          have d := setitem_dense_semantics wC hs
           simp only [List.map_set]
           refine ⟨?_, fun E hE => ?_⟩
           · congr 1
@@ -1258,13 +1271,9 @@ example : (run ([] : Env ℚ) Ex.prog).1.map absM = drun [] Ex.prog :=
   dyad_program_refines_dense_closed Ex.prog (by decide +kernel) (by decide +kernel)
 example : (run ([] : Env ℚ) Ex.prog).1.length = 21 := by decide +kernel
 
-/-- the side condition "exactly one full slice" of `setitem_dense_semantics` cannot be dropped: `A[:, :] = 0` leaves
-    the model carrier (like the real one) unchanged although the dense assignment zeroes everything
-    (open finding `setitem_all_noop`) -/
-theorem setitem_all_noop_witness :
-    setitem Ex.B (.sl none none none) (.sl none none none) true = .ok Ex.B ∧ dense Ex.B 0 0 ≠ 0
-      ∧ inSel 3 (.sl none none none) 0 = true ∧ inSel 2 (.sl none none none) 0 = true := by
-  refine ⟨by decide +kernel, by decide +kernel, ?_, ?_⟩ <;> rw [inSel_null] <;> decide
+-- `A[:, :] = 0` (repaired by 9b72248: before, the carrier was returned unchanged) now drops every dyad
+example : setitem Ex.B (.sl none none none) (.sl none none none) true = .ok { Ex.B with u := [], v := [] }
+    ∧ dense Ex.B 0 0 ≠ 0 ∧ dense ({ Ex.B with u := [], v := [] } : Carrier ℚ) 0 0 = 0 := by decide +kernel
 
 /-- the `Tight` hypothesis of the dtype claims cannot be dropped: for the loose carrier `Z` (complex dtype, no stored
     dyad — e.g. a complex carrier times 0) the model, like the code, returns a REAL copy although `Z.todense()` is
@@ -1272,5 +1281,26 @@ theorem setitem_all_noop_witness :
 theorem dtype_lost_on_copy_witness :
     ∃ Z D : Carrier ℚ, WF Z ∧ (todense Z).c = true ∧ copy Z = .ok D ∧ D.c = false :=
   ⟨⟨[], [], 3, 2, true⟩, ⟨[], [], 3, 2, false⟩, ⟨rfl, by simp, by simp⟩, rfl, rfl, rfl⟩
+
+/-! ### open known finding `dyad-dtype-lost-without-stored-complex-vector`: the full-strength complex-flag claims
+(without `Tight` / without a stored dyad) are FALSE of the code as written — negations proved at the witnesses -/
+
+-- `copy` (and every derived operation going through the constructor): a complex carrier without stored complex vector
+example : ¬ (∀ C D : Carrier ℚ, WF C → copy C = .ok D → D.c = C.c) := by
+  intro hall
+  have := hall ⟨[], [], 3, 2, true⟩ ⟨[], [], 3, 2, false⟩ ⟨rfl, by simp, by simp⟩ rfl
+  exact absurd this (by decide)
+
+-- `E * 1j` for an empty real carrier `E`: the scalar's complex type is lost
+example : ¬ (∀ (C D : Carrier ℚ) (z : Cx ℚ) (zc : Bool), WF C → mul C z zc = .ok D → D.c = (C.c || zc)) := by
+  intro hall
+  have := hall ⟨[], [], 2, 2, false⟩ ⟨[], [], 2, 2, false⟩ (Ex.z 0 1) true ⟨rfl, by simp, by simp⟩ rfl
+  exact absurd this (by decide)
+
+-- `A[:, :] = 0` on a complex carrier keeps the complex dtype (as dense does) but leaves it loose: a following
+-- `copy` is real although the dense matrix is complex
+example : (match setitem Ex.A (.sl none none none) (.sl none none none) true with
+    | .ok Z => Z.c && (match copy Z with | .ok D => !D.c | .error _ => false)
+    | .error _ => false) = true := by decide +kernel
 
 end PymotoVerif.C15
